@@ -75,3 +75,28 @@ Theorem C01_stmt_roundtrip_default_partial : forall ind bnl t, wf_file t ->
   parse_file (ml_print_file ind bnl t) = Some (norm_file t).
 Proof. exact stmt_roundtrip_default. Qed.
 Print Assumptions C01_stmt_roundtrip_default_partial.
+
+(* ------------------------------------------------------------------ level S+ : assignments and redirections
+   Syntax/MiniRedir.v models ONE simple command  Stmt{Cmd: CallExpr{Assigns, Args}, Redirs}  with
+   scalar assignments (prefix `x=w cmd` and standalone `x=w`) and redirections > >> < >& with an
+   optional fd and a word target: printer = assigns + wordJoin + stmtRedirs with the SpaceRedirects
+   option (identical under SingleLine and default mode on one line), parser = callExpr's loop with
+   getAssign and doRedirect.  PARTIAL, named honestly:
+   * proved (all simple commands): the printer state machine writes the items separated by single
+     blanks (x_print_file = x_render_file);
+   * NOT proved: parse_xfile (x_print_file sr x) = Some x (example only), and the fragment is NOT
+     integrated into the statement-level trees / theorems above (no redirections on compound
+     commands, no simple command with redirections inside lists, blocks, if, while);
+   both are tied to the real printer / parser by the code leg only (one-statement files). *)
+From Verif Require Import Syntax.MiniRedir Proofs.MiniRedirProofs.
+
+Theorem C01_simplecmd_redirs_render_partial : forall sr x, x_items sr x <> [] ->
+  x_print_file sr x = x_render_file sr x.
+Proof. exact x_print_file_render. Qed.
+Print Assumptions C01_simplecmd_redirs_render_partial.
+
+Example C01_simplecmd_redirs_example :
+  parse_xfile (x_print_file false ex_x) = Some ex_x /\ parse_xfile (x_print_file true ex_x) = Some ex_x /\
+  x_print_file true ex_x =
+    [120;61;49;32;121;61;32;99;109;100;32;39;97;32;98;39;32;50;62;38;49;32;62;62;32;108;111;103;32;60;32;105;110;10].
+Proof. exact ex_x_roundtrip. Qed.
